@@ -174,3 +174,18 @@ func CtrSet(name string, v int) {
 	defer mu.Unlock()
 	ctrs[name] = v
 }
+
+// CellSet/CellGet: race-free shared int64 cells for harness bookkeeping across goroutines
+// (engine-native, may hold symbolic values; not tracked by the race detector).
+var cells = map[string]int64{}
+
+func CellSet(name string, v int64) {
+	mu.Lock()
+	defer mu.Unlock()
+	cells[name] = v
+}
+func CellGet(name string) int64 {
+	mu.Lock()
+	defer mu.Unlock()
+	return cells[name]
+}
